@@ -1092,6 +1092,103 @@ class Sim:
             cid = "c%d" % i
             self.clients[cid] = Client(self, cid)
         mon.on_start(doc0)
+        # second tenant: built after the main schema's first documents were decoded, so that
+        # whatever the library remembers about the first schema is already there
+        self.twin = None
+        self.tenant_doc = None
+        if cfg.get("tenant_doc") is not None:
+            self.twin = schemas.twin_of(self.schema)
+            try:
+                td = Node.from_json(self.twin, json.loads(json.dumps(cfg["tenant_doc"])))
+            except Exception as e:  # noqa: BLE001
+                mon.violation("C05", "decode.raised", {"shape": "doc", "site": "tenant initial document",
+                                                       "json": cfg["tenant_doc"], "error": repr(e)})
+                raise core.AbortRun("tenant document does not decode")
+            self.tenant_decoded(td, cfg["tenant_doc"], "tenant initial document")
+            self.tenant_doc = td
+
+    def tenant_decoded(self, dec, js, site):
+        """a document of the second tenant read back from JSON: must be valid under *its* schema and
+        re-serialise to the JSON it came from (C05)"""
+        import validity
+
+        bad = None
+        try:
+            dec.check()
+        except Exception as e:  # noqa: BLE001
+            bad = repr(e)
+        if bad is None:
+            bad = validity.problems(dec) or None
+        if bad is not None or tk.canon(dec.to_json()) != tk.canon(js):
+            self.mon.violation("C05", "decode.not_equal", {"shape": "doc", "site": site, "json": js,
+                                                           "got": dec.to_json(), "why": bad})
+            raise core.AbortRun("tenant document decoded wrongly")
+
+    def tenant(self, ev):
+        """one transaction of the second tenant (same process, twin schema): applied through a plain
+        Transform, steps and result cross JSON; judged for the properties quantified over all
+        schemas (C01 C03 at the apply seam, C05, C08 transform laws, C10, C20)"""
+        if self.twin is None or self.tenant_doc is None:
+            return "skip"
+        main = self.schema
+        self.schema = self.twin
+        self.ctx_site = "tenant.edit"
+        mon = self.mon
+        try:
+            tr = Transform(self.tenant_doc)
+            refused = None
+            try:
+                with core.call_budget(COMMAND_CALL_BUDGET):
+                    for op in ev["ops"]:
+                        gen.apply_op(tr, op)
+            except gen.Refused as e:
+                refused = e
+            except REFUSAL_TYPES as e:
+                refused = e
+            except core.BudgetExceeded as e:
+                refused = e
+            mon.on_transform(None, tr, refused, ev["ops"], tenant=True)
+            self.stats["tenant.transactions"] += 1
+            if refused is not None:
+                self.stats["tenant.refused"] += 1
+                return "refused:" + type(refused).__name__
+            if not tr.steps:
+                return "noop"
+            # an application outside C01's quantifier (invalid closed node inside a fitter-built
+            # slice: C11's business) may leave an invalid document: the tenant does not adopt it
+            import validity
+
+            try:
+                tr.doc.check()
+                bad = bool(validity.problems(tr.doc))
+            except ValueError:
+                bad = True
+            if bad:
+                self.stats["tenant.invalid_result_not_adopted"] += 1
+                return "invalid"
+            for i, st in enumerate(tr.steps):
+                sj = loads(dumps(st.to_json()))
+                mon.guard("C05", mon.c05_step, st, sj, "tenant")
+                try:
+                    dec = Step.from_json(self.twin, sj)
+                except Exception:  # noqa: BLE001  (reported by c05_step above)
+                    continue
+                if "C05" in mon.on:
+                    mon.on_step_decoded(st, dec, sj, tr.docs[i], "tenant")
+                    safe_apply(dec, tr.docs[i])
+            self.stats["tenant.steps"] += len(tr.steps)
+            data = dumps(tr.doc.to_json())
+            mon.on_wire("doc", tr.doc, data, "tenant", key=None)
+            if ev.get("reload"):
+                new = Node.from_json(self.twin, loads(data))
+                if "C05" in mon.on:
+                    self.tenant_decoded(new, loads(data), "tenant reload")
+                self.tenant_doc = new
+            else:
+                self.tenant_doc = tr.doc
+            return "ok:%d" % len(tr.steps)
+        finally:
+            self.schema = main
 
     # ---- R3 single-copy log (omniscient, never crashes)
     def r3_append(self, version, doc, step, cid):
@@ -1323,6 +1420,8 @@ class Sim:
             return self.byzantine(ev)
         if k == "translate":
             return self.translate(ev)
+        if k == "tenant":
+            return self.tenant(ev)
         if k == "probe":
             return self.mon.on_probe(ev)
         if k == "note":
@@ -1937,7 +2036,42 @@ class Generator:
             a, b = gen.rand_range(rng, c.doc, 10)
             self.emit({"k": "anchor", "c": cid, "from": a, "to": b})
             return
+        tp = cfg.get("tenant_p", 0.0)
+        if tp and sim.tenant_doc is not None and rng.random() < tp:
+            self.gen_tenant()
+            return
         self.gen_edit(c)
+
+    TENANT_MIX = {"mark_any": 10, "mark_sweep": 4, "raw_step": 6, "add_mark": 4, "remove_mark": 2, "type": 5, "paste": 3,
+                  "insert_node": 3, "set_block_type": 3, "split": 2, "join": 1, "set_node_attribute": 2,
+                  "set_node_markup": 2, "delete": 2, "wrap": 1, "lift": 1, "mark_run": 2}
+
+    def gen_tenant(self):
+        sim, rng = self.sim, self.rng
+        doc = sim.tenant_doc
+        kinds = list(self.TENANT_MIX)
+        weights = [self.TENANT_MIX[k] for k in kinds]
+        size = doc.content.size
+        if size > 160:
+            a = rng.randint(0, size)
+            self.emit({"k": "tenant", "ops": [{"op": "delete_range", "from": a, "to": min(size, a + size // 2)}]})
+            return
+        tpos = gen.text_positions(doc)
+        a = rng.choice(tpos) if tpos else 0
+        sel = (a, min(size, a + rng.choice([0, 0, 2, 6])))
+        for _ in range(6):
+            kind = rng.choices(kinds, weights)[0]
+            try:
+                with core.call_budget(COMMAND_CALL_BUDGET):
+                    op = gen.gen_op(rng, kind, doc, sel, [])
+            except core.BudgetExceeded:
+                op = None
+            if op is not None:
+                ev = {"k": "tenant", "ops": [op]}
+                if rng.random() < 0.25:
+                    ev["reload"] = True
+                self.emit(ev)
+                return
 
     def gen_edit(self, c):
         sim, rng = self.sim, self.rng
